@@ -287,9 +287,19 @@ func split(s string) []string {
 	if s == "" {
 		return nil
 	}
-	out := strings.Split(s, ",")
-	for i := range out {
-		out[i] = rk(out[i])
+	var out []string
+	for _, tok := range strings.Split(s, ",") {
+		// "#k:from:to:step" stands for the keys k0000.. of a big population,
+		// "#x:from:to:step" for as many distinct values
+		var pre string
+		var a, b, st int
+		if n, _ := fmt.Sscanf(tok, "#%1s:%d:%d:%d", &pre, &a, &b, &st); n == 4 && st > 0 {
+			for i := a; i < b; i += st {
+				out = append(out, fmt.Sprintf("%s%04d", pre, i))
+			}
+			continue
+		}
+		out = append(out, rk(tok))
 	}
 	return out
 }
